@@ -125,6 +125,12 @@ func genFan(rng *rand.Rand) []*rmodel.Route {
 		rt.Segs = append(rt.Segs, tail...)
 		out = append(out, rt)
 	}
+	// a registration that opens a new alternative at the wide position and is refused deeper down (a bind used
+	// twice), followed by a well-formed route through the same alternative: it must be reachable
+	ph := func(n string) rmodel.Segment { return rmodel.Segment{Elems: []rmodel.Elem{{Bind: n}}} }
+	bad := &rmodel.Route{Segs: append(append([]rmodel.Segment{}, prefix...), lit("zz"), ph("dup"), ph("dup"))}
+	good := &rmodel.Route{Segs: append(append([]rmodel.Segment{}, prefix...), lit("zz"), lit("ok"))}
+	out = append(out, bad, good)
 	return out
 }
 
@@ -135,7 +141,8 @@ func genRouteCase(rng *rand.Rand, flameLevel bool, nPaths int) *routeCase {
 	if fan {
 		set = genFan(rng)
 	}
-	c := &routeCase{Level: "tree", Continue: rng.Intn(4) == 0, RawPath: rng.Intn(3) == 0, Warm: rng.Intn(5) == 0}
+	fanContinue := fan && rng.Intn(2) == 0
+	c := &routeCase{Level: "tree", Continue: rng.Intn(4) == 0 || fanContinue, RawPath: rng.Intn(3) == 0, Warm: rng.Intn(5) == 0}
 	for _, rt := range set {
 		if rng.Intn(3) == 0 {
 			// legal, non-canonical spelling of the blanks: the registered text differs from the canonical one
@@ -172,7 +179,7 @@ func genRouteCase(rng *rand.Rand, flameLevel bool, nPaths int) *routeCase {
 		c.Paths = append(c.Paths, core.B(gen.GenPath(rng, set)))
 		if fan && i%2 == 0 {
 			// values that several of the dynamic alternatives admit
-			v := []string{"hello", "abc1", "a.b", "a-b", "s1", "s99", "x"}[rng.Intn(7)]
+			v := []string{"hello", "abc1", "a.b", "a-b", "s1", "s99", "x", "zz/ok", "zz/ok"}[rng.Intn(9)]
 			txt := set[0].Render()
 			pre, post := "", ""
 			if strings.HasPrefix(txt, "/p/") {
@@ -809,6 +816,13 @@ func judgeRouteCaseFlame(w *core.W, c *routeCase, prop string) {
 		if c.RawPath {
 			req.URL.RawPath = nonCanonicalEncoding(path, k)
 			w.Count("requests-with-raw-path")
+		}
+		if k%5 == 3 {
+			// headers that other frameworks let override the method or the path: here the request line decides
+			other := c.Methods[k%len(c.Methods)]
+			req.Header.Set([]string{"X-HTTP-Method-Override", "X-Method-Override", "X-HTTP-Method"}[k%3], other)
+			req.Header.Set([]string{"X-Original-URL", "X-Rewrite-URL", "X-Forwarded-Prefix"}[k%3], "/"+strings.Trim(c.Routes[k%len(c.Routes)], "/"))
+			w.Count("requests-with-override-headers")
 		}
 		var pan interface{}
 		func() {
